@@ -650,7 +650,8 @@ Record CRefines (sts : list cstate) (idmap : nmap N) : Prop := {
     cw_child (fun j => nth_error sts (N.to_nat j)) i m
     = Ok (match tchild V n s c with Some t => nget t idmap | None => None end);
   crf_links : forall s st i, node s -> s <> DEAD -> nfa_get V n s = Ok st -> nget s idmap = Some i ->
-    exists sl, nth_error sts (N.to_nat i) = Some sl /\ c_fail sl = fmap idmap (n_fail st) /\ c_outpos sl = n_outpos st
+    exists sl, nth_error sts (N.to_nat i) = Some sl /\ c_fail sl = fmap idmap (n_fail st) /\ c_outpos sl = n_outpos st;
+  crf_code : forall s c t, node s -> tchild V n s c = Some t -> exists m, code_of tbl c = Some m
 }.
 
 Hypothesis root_node : node ROOT.
@@ -716,6 +717,9 @@ Proof.
            ++ specialize (Hi2 Hsr). unfold DEAD in Eck. lia.
   - intros s st i Ns Hd Hg Hi. destruct (cd_im_rng _ _ _ _ _ D2 s i Hi) as [Hil _]. exists (cslot a2 i). split; [exact (carr_to_list_nth a2 i Hil)|].
     apply (F2 s st i); try assumption. apply nseq_mem_c. pose proof (node_lt s Ns). lia.
+  - intros s c t Ns Hc. destruct (Hidx s (Hplaced s Ns)) as [i Hi]. destruct (cd_arr _ _ _ _ _ D2 s i (Hplaced s Ns) Hi) as [_ A1].
+    apply (edges_child s c t Ns) in Hc. destruct (A1 ltac:(intros E0; rewrite E0 in Hc; destruct Hc)) as (_ & _ & Hch).
+    destruct (Hch c t Hc) as (m & Hm & _). eauto.
 Qed.
 
 End Refine.
